@@ -796,7 +796,7 @@ def _isfile_fact(prog, atom):
 def rule_file6(prog, rep, tier, anchor="__main__.main"):
     """FILE-6: every path of main() that reaches a worker call has passed that worker's validations, each with a
     no-return failing branch (ArgumentParser.error / raise)."""
-    fi = prog.fn(anchor)
+    fi = prog.inl(prog.fn(anchor))
     cfg = CFG(fi.node, noreturn=_is_parser_error)
     workers = {"conformance.ground_truth": "sync", "sync_properties.sync_properties": "sync_properties", "gen.gen": "gen"}
     found = {}
@@ -1062,7 +1062,7 @@ def rule_file6b(prog, rep, tier, anchor="gen.gen", main="__main__.main", param="
     """FILE-6b: the path the existing-output guard tests is the path that is opened for writing: the worker applies no
     further canonicalisation to it (or the guard applies the same)."""
     fi = prog.fn(anchor)
-    mi = prog.fn(main)
+    mi = prog.inl(prog.fn(main))
     guard_nf = set()
     for c in ast.walk(mi.node):
         if isinstance(c, ast.Call) and isinstance(c.func, (ast.Attribute, ast.Name)) and prog.ext_name(c.func, c) in ("os.path.isfile", "os.path.exists") and c.args \
@@ -1097,7 +1097,7 @@ def rule_file6b(prog, rep, tier, anchor="gen.gen", main="__main__.main", param="
 def rule_file6c(prog, rep, tier, anchor="__main__.main"):
     """FILE-6c: a usage error is raised only before any worker has started: no ArgumentParser.error in an exception
     handler around (or in a statement after) a worker call."""
-    fi = prog.fn(anchor)
+    fi = prog.inl(prog.fn(anchor))
     workers = ("conformance.ground_truth", "sync_properties.sync_properties", "gen.gen")
 
     def has_worker(nodes):
